@@ -183,10 +183,35 @@ func c31NewLink(cfg c31Cfg) (*c31Link, error) {
 
 // ---------------------------------------------------------------- data
 
+// c31HdrRange: number of values of the 16-bit length field of the frame header.
+const c31HdrRange = 1 << 16
+
+// c31BoundarySizes: write sizes derived from the code's own boundaries: around every
+// multiple boundary of the frame size constant F (read from the package) and around the
+// range of the header's length field, whatever F is.
+func c31BoundarySizes() []int {
+	f := secureConnFrameSize
+	m := map[int]struct{}{}
+	for _, x := range []int{f - 1, f, f + 1, 2*f - 1, 2 * f, 2*f + 1,
+		c31HdrRange - 1, c31HdrRange, c31HdrRange + 1, 2*c31HdrRange - 1, 2 * c31HdrRange, 2*c31HdrRange + 1} {
+		if x > 0 {
+			m[x] = struct{}{}
+		}
+	}
+	out := make([]int, 0, len(m))
+	for x := range m {
+		out = append(out, x)
+	}
+	sort.Ints(out)
+	return out
+}
+
 var c31Data = func() [2][]byte {
+	// long enough for 4 writes of the largest size of either alphabet
+	size := 4*(2*secureConnFrameSize+1) + 4*(2*c31HdrRange+1) + 2*DefaultPacketBufferSize
 	var d [2][]byte
 	for k := range d {
-		b := make([]byte, 1<<15)
+		b := make([]byte, size)
 		x := uint32(0x9e3779b9 * uint32(k+1))
 		for i := range b {
 			x = x*1664525 + 1013904223
@@ -202,7 +227,7 @@ const c31Sentinel = 0xEE
 // ---------------------------------------------------------------- cases
 
 type c31Case struct {
-	Kind    string `json:"kind"` // keys | sizes | chunk | tamper | prod | prodtamper
+	Kind    string `json:"kind"` // keys | bounds | sizes | chunk | tamper | prod | prodtamper
 	Cfg     c31Cfg `json:"cfg"`
 	Writes  []int  `json:"writes,omitempty"`  // write sizes (direction 1->2; 2->1 uses the reverse)
 	Reads   []int  `json:"reads,omitempty"`   // read-buffer sizes, cycled until the stream is drained
@@ -237,7 +262,7 @@ func (c *c31Case) String() string {
 }
 
 type c31Stats struct {
-	sizeRuns, chunkRuns, tamperRuns, prodRuns, prodTamperRuns, keyRuns int64
+	sizeRuns, chunkRuns, tamperRuns, prodRuns, prodTamperRuns, keyRuns, boundsRuns, prodBigRuns int64
 	shortBufReads, fullBufReads                                        int64 // reads with buffer < / >= pending frame
 	rejected                                                           int64 // tamper runs that ended in an error
 	cleanEOF                                                           int64 // "drop last"/foreign-at-end style runs that ended in EOF
@@ -314,15 +339,24 @@ type c31ReadResult struct {
 
 func c31Drain(rd io.Reader, pattern []int, limit int) (res c31ReadResult) {
 	zero := 0
+	bufs, lastN := map[int][]byte{}, map[int]int{}
 	for i := 0; ; i++ {
 		if res.reads >= limit {
 			res.stuck = true
 			return
 		}
 		size := pattern[i%len(pattern)]
-		buf := make([]byte, size)
-		for j := range buf {
-			buf[j] = c31Sentinel
+		buf := bufs[size] // one buffer per size, re-filled with the sentinel where the last read stored data
+		if buf == nil {
+			buf = make([]byte, size)
+			for j := range buf {
+				buf[j] = c31Sentinel
+			}
+			bufs[size] = buf
+		} else {
+			for j := 0; j < lastN[size] && j < len(buf); j++ {
+				buf[j] = c31Sentinel
+			}
 		}
 		var n int
 		var err error
@@ -340,6 +374,7 @@ func c31Drain(rd io.Reader, pattern []int, limit int) (res c31ReadResult) {
 			n = 0
 		}
 		res.got = append(res.got, buf[:n]...)
+		lastN[size] = n
 		if err != nil {
 			res.err = err
 			res.nWithErr = n
@@ -427,6 +462,8 @@ func c31StreamVerdict(r *ev.Run, c *c31Case, dir string, want []byte, res c31Rea
 func c31CheckSizes(r *ev.Run, st *c31Stats, c *c31Case) {
 	if c.Kind == "chunk" {
 		atomic.AddInt64(&st.chunkRuns, 1)
+	} else if c.Kind == "bounds" {
+		atomic.AddInt64(&st.boundsRuns, 1)
 	} else {
 		atomic.AddInt64(&st.sizeRuns, 1)
 	}
@@ -994,7 +1031,7 @@ func c31Run(r *ev.Run, st *c31Stats, c *c31Case) bool {
 	switch c.Kind {
 	case "keys":
 		c31CheckKeys(r, st, c)
-	case "sizes", "chunk":
+	case "sizes", "chunk", "bounds":
 		c31CheckSizes(r, st, c)
 	case "tamper":
 		return c31CheckTamper(r, st, c)
@@ -1030,14 +1067,19 @@ func TestVerifC31(t *testing.T) {
 		return
 	}
 	quick := r.Quick()
-	writeAlpha := []int{1, 2, 1023, 1024, 1025, 2049}
-	readAlpha := []int{1, 2, 16, 1023, 1024, 4096}
-	r.Rule("keys: 8 key roles (A<B both orders and defaultLower assignments, equal keys, equal-X/opposite-Y) x 3 AEAD suites x secrets{1,2}; " +
-		"sizes: every write-size sequence of length<=3 over {1,2,1023,1024,1025,2049} (the other direction writes the reverse) x every cyclic read-buffer pattern of length<=3 over {1,2,16,1023,1024,4096} x 3 suites x 2 schedules (thorough adds write sequences of length 4 with patterns<=2; quick: |writes|+|pattern|<=5 first suite, <=3 others); " +
+	F := secureConnFrameSize // the code's own frame size; every alphabet below is derived from it
+	writeAlpha := []int{1, 2, F - 1, F, F + 1, 2*F + 1}
+	readAlpha := []int{1, 2, 16, F - 1, F, 4 * F}
+	boundSizes := c31BoundarySizes()
+	r.Rule(fmt.Sprintf("All size alphabets are derived from the code at run time: F = secureConnFrameSize = %d, H = 65536 = range of the 16-bit length field of the frame header. ", F) +
+		"keys: 8 key roles (A<B both orders and defaultLower assignments, equal keys, equal-X/opposite-Y) x 3 AEAD suites x secrets{1,2}; " +
+		"bounds: write sizes {F-1,F,F+1,2F-1,2F,2F+1,H-1,H,H+1,2H-1,2H,2H+1} x read buffers {1,16,F-1,F,F+1,4F,total+1}: quick = every single write x every read size x 3 suites x 2 schedules, every pair of writes x reads{F+1,total+1} (first suite); " +
+		"thorough = singles and pairs x every cyclic read pattern of length<=2 x 3 suites x 2 schedules, triples x reads{F+1,4F,total+1} (first suite); plus one packet through PacketWriter/PacketReader whose payload, or whose direct bufio pass-through write (payload-4066), has each of those sizes x 3 suites x 2 conn chunkings; " +
+		"sizes: every write-size sequence of length<=3 over {1,2,F-1,F,F+1,2F+1} (the other direction writes the reverse) x every cyclic read-buffer pattern of length<=3 over {1,2,16,F-1,F,4F} x 3 suites x 2 schedules (thorough adds write sequences of length 4 with patterns<=2; quick: |writes|+|pattern|<=5 first suite, <=3 others); " +
 		"config: all roles x secrets{1,2} x suites x write sequences<=2 x 6 single read sizes; " +
 		"conn chunking: uniform {1,2,3,5,16,17,1039,1040,1041,1044} and every single cut (wire<=200 bytes; every cut pair for wire<=64 bytes); " +
-		"tamper: per frame: xor{0x01,0x80,0xff} at 10 positions (length hi/lo, 2 padding bytes, ciphertext first/mid/last, tag first/mid/last), swap with next, replay (directly / at end), drop, truncation at 4 points, frame of another session, reflected own frame; " +
-		"production tier: PacketWriter/PacketReader (bufio 4096) over the SecureConn, packet payload sequences over {0,1,100,984,985,2000,6000}, intact and with every frame mutation. " +
+		"tamper: per frame of write sequences over {1,2,F,F+1}: xor{0x01,0x80,0xff} at 10 positions (length hi/lo, 2 padding bytes, ciphertext first/mid/last, tag first/mid/last), swap with next, replay (directly / at end), drop, truncation at 4 points, frame of another session, reflected own frame; " +
+		"production tier: PacketWriter/PacketReader (bufio 4096) over the SecureConn, packet payload sequences over {0,1,100,F-40,F-39,2000,6000}, intact and with every frame mutation. " +
 		"distinct_nontrivial = distinct cases in which at least one frame crosses the conn")
 	r.Assume("plaintext is a fixed pseudo-random filler; keys are three fixed P-256 scalars (A, B, n-A)",
 		"a reader honours the io.Reader contract: buf[:n] is stream data also when err != nil; n > len(buf) is a failure in itself",
@@ -1052,6 +1094,76 @@ func TestVerifC31(t *testing.T) {
 		for su := range c31Suites {
 			for _, kn := range []int{1, 2} {
 				cases = append(cases, c31Case{Kind: "keys", Cfg: c31Cfg{su, ro, kn}})
+			}
+		}
+	}
+	// ---- boundary sizes: multiples of the frame size and the range of the header's length field.
+	// Read buffers: 1, small, F-1, F, F+1, 4F, larger than everything written.
+	boundReads := func(total int) []int {
+		m := map[int]struct{}{}
+		for _, x := range []int{1, 16, F - 1, F, F + 1, 4 * F, total + 1} {
+			if x > 0 {
+				m[x] = struct{}{}
+			}
+		}
+		var out []int
+		for x := range m {
+			out = append(out, x)
+		}
+		sort.Ints(out)
+		return out
+	}
+	for _, w := range c31Seqs(boundSizes, r.Pick(2, 3)) {
+		brs := boundReads(c31Sum(w))
+		for su := range c31Suites {
+			switch len(w) {
+			case 1:
+				// quick and thorough: every single write x every read size x suites x both schedules
+				for _, rs := range brs {
+					for sched := 0; sched < 2; sched++ {
+						cases = append(cases, c31Case{Kind: "bounds", Cfg: c31Cfg{su, 0, 2}, Writes: w, Reads: []int{rs}, Sched: sched})
+					}
+				}
+				if !quick { // read patterns of length 2
+					for _, rp := range c31Seqs(brs, 2)[len(brs):] {
+						cases = append(cases, c31Case{Kind: "bounds", Cfg: c31Cfg{su, 0, 2}, Writes: w, Reads: rp})
+					}
+				}
+			case 2:
+				if quick {
+					if su == 0 { // quick: pairs with the first suite and two read sizes
+						for _, rs := range []int{F + 1, c31Sum(w) + 1} {
+							cases = append(cases, c31Case{Kind: "bounds", Cfg: c31Cfg{su, 0, 2}, Writes: w, Reads: []int{rs}})
+						}
+					}
+					continue
+				}
+				for _, rp := range c31Seqs(brs, 2) {
+					for sched := 0; sched < 2; sched++ {
+						cases = append(cases, c31Case{Kind: "bounds", Cfg: c31Cfg{su, 0, 2}, Writes: w, Reads: rp, Sched: sched})
+					}
+				}
+			case 3:
+				if su == 0 { // thorough: triples with the first suite and three read sizes
+					for _, rs := range []int{F + 1, 4 * F, c31Sum(w) + 1} {
+						cases = append(cases, c31Case{Kind: "bounds", Cfg: c31Cfg{su, 0, 2}, Writes: w, Reads: []int{rs}})
+					}
+				}
+			}
+		}
+	}
+	// production stack with one large packet: bufio.Writer(4096) hands the part of the payload that
+	// does not fit its buffer to the conn in ONE Write of payload-(4096-header) bytes; choose the
+	// payload so that this write has each boundary size (and the payload itself has it)
+	for _, d := range boundSizes {
+		for _, pl := range []int{d, d + DefaultPacketBufferSize - packetHeaderSize} {
+			if pl > DefaultPacketPayloadMax {
+				continue
+			}
+			for su := range c31Suites {
+				for _, u := range []int{0, F + 16} {
+					cases = append(cases, c31Case{Kind: "prod", Cfg: c31Cfg{su, 0, 2}, Pkts: []int{pl}, Uniform: u})
+				}
 			}
 		}
 	}
@@ -1117,7 +1229,7 @@ func TestVerifC31(t *testing.T) {
 		}
 	}
 	// ---- tampering
-	tamperWrites := c31Seqs([]int{1, 2, 1024, 1025}, r.Pick(2, 3))
+	tamperWrites := c31Seqs([]int{1, 2, F, F + 1}, r.Pick(2, 3))
 	type mut struct {
 		m, pos string
 		xor    byte
@@ -1154,7 +1266,7 @@ func TestVerifC31(t *testing.T) {
 		}
 	}
 	// ---- production tier
-	pktAlpha := []int{0, 1, 100, 1024 - packetHeaderSize - packetFooterSize, 1025 - packetHeaderSize - packetFooterSize, 2000, 6000}
+	pktAlpha := []int{0, 1, 100, F - packetHeaderSize - packetFooterSize, F + 1 - packetHeaderSize - packetFooterSize, 2000, 6000}
 	pseqs := c31Seqs(pktAlpha, r.Pick(2, 3))
 	for su := range c31Suites {
 		for _, ps := range pseqs {
@@ -1203,6 +1315,7 @@ func TestVerifC31(t *testing.T) {
 		{Kind: "sizes", Cfg: c31Cfg{0, 0, 2}, Writes: []int{1025, 1}, Reads: []int{4096}, Sched: 1},
 		{Kind: "tamper", Cfg: c31Cfg{1, 0, 2}, Writes: []int{1024, 2}, Reads: []int{4096}, Mut: "swap", Frame: 0},
 		{Kind: "prod", Cfg: c31Cfg{2, 0, 2}, Pkts: []int{6000, 0}, Uniform: 7},
+		{Kind: "bounds", Cfg: c31Cfg{0, 0, 2}, Writes: []int{c31HdrRange}, Reads: []int{F + 1}},
 	}
 	for i := range sm {
 		r.Sample(map[string]interface{}{"case": sm[i], "desc": sm[i].String()})
@@ -1221,6 +1334,9 @@ func TestVerifC31(t *testing.T) {
 	}
 	r.Set("cases_applicable", applicable)
 	r.Set("key_configs", st.keyRuns)
+	r.Set("frame_size_constant", F)
+	r.Set("boundary_write_sizes", boundSizes)
+	r.Set("boundary_runs", st.boundsRuns)
 	r.Set("size_runs", st.sizeRuns)
 	r.Set("size_runs_with_buffer_shorter_than_a_frame", st.shortBufReads)
 	r.Set("size_runs_with_buffer_at_least_frame", st.fullBufReads)
@@ -1237,6 +1353,7 @@ func TestVerifC31(t *testing.T) {
 	r.Set("prod_panics", st.prodPanics)
 	if incomplete == 0 {
 		r.Sanity(st.shortBufReads > 0 && st.fullBufReads > 0, "short/full buffer runs missing")
+		r.Sanity(st.boundsRuns > 0 && boundSizes[len(boundSizes)-1] > c31HdrRange && boundSizes[len(boundSizes)-1] > 2*F, "boundary sizes do not exceed the header range / frame size")
 		r.Sanity(st.tamperRuns > 1000 && st.prodTamperRuns > 1000, "too few tamper runs")
 		r.Sanity(st.prodMaxBuf > DefaultPacketBufferSize, "bufio direct-read path never taken")
 		r.Sanity(st.prodMinBuf > 0, "spy saw no read")
